@@ -127,23 +127,15 @@ def Cfg.currentOs : Cfg :=
   { Cfg.current with sweepNotifiesTransferError := false, allocBeforeOpen := false,
                      sweepEmptiesTable := false, notifyKinds := [], useKindChecked := false }
 
-/-! The three new fields have no generated source yet: `Generated/AllocHandles.lean` builds its two
-`Cfg` values from the first six fields only.  `cfgOfRS` / `cfgOfOS` complete a generated value with the
-hand-written constants below (TO BE EXTRACTED, see the field comments for file:line). -/
-def Hand.rsSweepEmptiesTable : Bool := true
-def Hand.rsNotifyKinds : List Kind := [.reader, .writer, .readerWriter]
-def Hand.rsUseKindChecked : Bool := true
-def Hand.osSweepEmptiesTable : Bool := false
-def Hand.osNotifyKinds : List Kind := []
-def Hand.osUseKindChecked : Bool := false
+/-! All nine fields are regenerated from the source (`Generated/AllocHandles.lean`, translator unit
+/verif/extract/allochandles.go): `sweepEmptiesTable` from the `delete(<table>, handle)` statement of the sweep loop
+of Serve, `notifyKinds` from the `X.(TransferError)` tests of `Request.transferError`, `useKindChecked` from the
+`!request.servesPacket(pkt)` branch in front of `request.call` in packetWorker's `case hasHandle`.
+`cfgOfRS` / `cfgOfOS` used to complete a generated value with hand-written constants; they are the identity now
+and only kept for the files that name them (Props/C11Inst.lean, Driver/C11.lean). -/
+def cfgOfRS (g : Cfg) : Cfg := g
 
-def cfgOfRS (g : Cfg) : Cfg :=
-  { g with sweepEmptiesTable := Hand.rsSweepEmptiesTable, notifyKinds := Hand.rsNotifyKinds,
-           useKindChecked := Hand.rsUseKindChecked }
-
-def cfgOfOS (g : Cfg) : Cfg :=
-  { g with sweepEmptiesTable := Hand.osSweepEmptiesTable, notifyKinds := Hand.osNotifyKinds,
-           useKindChecked := Hand.osUseKindChecked }
+def cfgOfOS (g : Cfg) : Cfg := g
 
 structure Obj where
   /-- number of Close calls on the reader / writer / lister / file. -/
